@@ -3,7 +3,10 @@
   Requests (byte strings hex, "-" = empty):
     tx <raw>      -> none
                    | ok <consumed> <nowitsize(NewTx)> <segwit:0|1> <nin> <nout> <encodeTx> <encodeTxNoWit>
-                        <hash> <wtxid> <size> <nowitsize(SetHash)> <weight> <vsize> <txSize>
+                        <hash> <wtxid> <size> <nowitsize(SetHash)> <weight> <vsize> <txSize> <fields>
+                     fields = F<version>/<lock_time>/<in;in;…>/<out;out;…>/<witness item counts n,n,… | ->   (the decoded
+                     NUMBERS, not their re-serialisation)   in = <first 4 bytes of prev hash>.<prev index>.<sequence>.<len scriptSig>
+                                                              out = <value>.<len pkScript>
                      (ids are those of SetHash(raw[:consumed]) with H = sha256d)
     txsize <raw>  -> <n>
     lax <raw>     -> none | ok <consumed> <encodeTx>        (NewTx as it was before the fix)
@@ -12,6 +15,11 @@
     block <raw>   -> <err:none|tooShort|badCount|txFailed> <txCount> <weight> <ntx> {<hash>:<wtxid>:<size>:<nowitsize>}*
     merkle <raw>  -> <MerkleRootMatch 0|1> <GetMerkle root|none> <mutated 0|1>     (after NewBlock + BuildTxList)
     alloc <sizeof Tx> <sizeof TxIn> <sizeof TxOut> <raw> -> <bytes requested from the allocator by NewTx(raw)>
+    txin <raw>    -> none | ok <consumed> <hash4>.<idx>.<seq>.<len> <scriptSig>     (btc.NewTxIn; none = nil OR panic)
+    txout <raw>   -> none | ok <consumed> <value>.<len> <pkScript>                   (btc.NewTxOut)
+    txinsize <raw> / txoutsize <raw> -> panic | <n>                                   (btc.TxInSize / TxOutSize; 0 = refused)
+    vlen <raw>    -> <value as Go int> <size>                                          (btc.VLen, Base.vlen; 0 0 = buffer too short)
+    putule <n>    -> <bytes>                                                            (canonical CompactSize, Base.putULe)
     obj <data> {u:<raw> | b0 | b1 | c | d:<raw>}*   one btc.Block object through a history (Model/WireBlockObj.lean):
                   NewBlock(data), then UpdateContent / BuildTxListExt(false|true) / Clean / the client's reset
                   -> none (NewBlock refused: no object)
@@ -26,6 +34,16 @@ import GocoinV.Base.Sha256
 import GocoinV.Base.Proto
 open GocoinV GocoinV.Wire
 
+/-- the decoded fields as numbers (a decode/encode pair that is wrong in the same way cancels out in every
+    re-serialisation and hash; it does not here) -/
+def fieldsTok (tx : Tx) : String :=
+  let ins := ";".intercalate (tx.ins.map fun i => s!"{Hex.encodeRaw (i.prevHash.take 4)}.{i.prevIdx}.{i.sequence}.{i.scriptSig.length}")
+  let outs := ";".intercalate (tx.outs.map fun o => s!"{o.value}.{o.pkScript.length}")
+  let w := match tx.witness with
+    | none => "-"
+    | some st => ",".intercalate (st.map fun (s : List Bytes) => toString s.length)
+  s!"F{tx.version}/{tx.lockTime}/{ins}/{outs}/{w}"
+
 def txReply (b : Bytes) : String :=
   match decodeTxFull b with
   | none => "none"
@@ -33,7 +51,7 @@ def txReply (b : Bytes) : String :=
     let raw := b.take d.consumed
     let ids := setHash sha256d d.tx raw
     let sw := match d.tx.witness with | some _ => "1" | none => "0"
-    s!"ok {d.consumed} {d.noWitSize} {sw} {d.tx.ins.length} {d.tx.outs.length} {Hex.encode (encodeTx d.tx)} {Hex.encode (encodeTxNoWit d.tx)} {Hex.encode ids.hash} {Hex.encode ids.wtxid} {ids.size} {ids.noWitSize} {weight ids.noWitSize ids.size} {vsize ids.noWitSize ids.size} {txSize b}"
+    s!"ok {d.consumed} {d.noWitSize} {sw} {d.tx.ins.length} {d.tx.outs.length} {Hex.encode (encodeTx d.tx)} {Hex.encode (encodeTxNoWit d.tx)} {Hex.encode ids.hash} {Hex.encode ids.wtxid} {ids.size} {ids.noWitSize} {weight ids.noWitSize ids.size} {vsize ids.noWitSize ids.size} {txSize b} {fieldsTok d.tx}"
 
 /-- token-stream parser for `enc` -/
 def takeIns : Nat → List String → Option (List TxIn × List String)
@@ -147,6 +165,28 @@ def step (_ : Unit) (toks : List String) : Unit × String :=
     | some b => match decodeTxLax b with
       | some (t, n) => ((), s!"ok {n} {Hex.encode (encodeTx t)}")
       | none => ((), "none")
+    | none => bad
+  | ["txin", b] => match Hex.decode b with
+    | some b => match decodeTxIn b with
+      | some (i, rest) => ((), s!"ok {b.length - rest.length} {Hex.encodeRaw (i.prevHash.take 4)}.{i.prevIdx}.{i.sequence}.{i.scriptSig.length} {Hex.encode i.scriptSig}")
+      | none => ((), "none")
+    | none => bad
+  | ["txout", b] => match Hex.decode b with
+    | some b => match decodeTxOut b with
+      | some (t, rest) => ((), s!"ok {b.length - rest.length} {t.value}.{t.pkScript.length} {Hex.encode t.pkScript}")
+      | none => ((), "none")
+    | none => bad
+  | ["txinsize", b] => match Hex.decode b with
+    | some b => ((), match txInSize b with | some n => toString n | none => "panic")
+    | none => bad
+  | ["txoutsize", b] => match Hex.decode b with
+    | some b => ((), match txOutSize b with | some n => toString n | none => "panic")
+    | none => bad
+  | ["vlen", b] => match Hex.decode b with
+    | some b => ((), s!"{(CompactSize.vlen b).1} {(CompactSize.vlen b).2}")
+    | none => bad
+  | ["putule", n] => match n.toNat? with
+    | some n => ((), Hex.encode (CompactSize.putULe n))
     | none => bad
   | "enc" :: ts => match encReply ts with
     | some r => ((), r)
